@@ -45,22 +45,27 @@ func (ps Prices) addPrice(target, commodity *commodity.Commodity, price decimal.
 }
 
 // Normalize creates a normalized price map for the given commodity.
+//
+// The price graph is traversed breadth-first from t, so that a commodity
+// which has a price declared directly against t gets that price, and not one
+// derived through a chain of other declarations. Neighbors are visited in
+// name order, so that the result does not depend on map iteration order
+// when several chains of the same length exist.
 func (ps Prices) Normalize(t *commodity.Commodity) NormalizedPrices {
 	res := NormalizedPrices{t: one}
-	ps.normalize(t, res)
-	return res
-}
-
-// normalize recursively computes prices by traversing the price graph.
-// res must already contain a price for c.
-func (ps Prices) normalize(c *commodity.Commodity, res NormalizedPrices) {
-	for neighbor, price := range ps[c] {
-		if _, done := res[neighbor]; done {
-			continue
+	queue := []*commodity.Commodity{t}
+	for len(queue) > 0 {
+		c := queue[0]
+		queue = queue[1:]
+		for _, neighbor := range dict.SortedKeys(ps[c], commodity.Compare) {
+			if _, done := res[neighbor]; done {
+				continue
+			}
+			res[neighbor] = Multiply(ps[c][neighbor], res[c])
+			queue = append(queue, neighbor)
 		}
-		res[neighbor] = Multiply(price, res[c])
-		ps.normalize(neighbor, res)
 	}
+	return res
 }
 
 // NormalizedPrices is a map representing the price of
